@@ -221,6 +221,21 @@ def judge(case):
                 if any(t[3] for t in fw): v("test-with-grad-tracking", "gradient tracking enabled during test()")
                 if model.state() != s0: v("test-changed-state", "parameters or running statistics changed during test()")
                 if len(yp) != vb * BATCH or len(ytrue) != vb * BATCH: v("test-result-size", f"{len(yp)} predictions for {vb * BATCH} samples")
+        # ---- a second fit() on the same Trainer (warm restart, no validation loader this time): its history is its own
+        if not viol:
+            trace.clear()
+            try:
+                hist2 = tr.fit(train_loader, 1, None)
+            except Exception as e:
+                v("second-fit-raised", f"{type(e).__name__}: {str(e)[:100]}"); hist2 = None
+            if hist2 is not None:
+                keys2 = {"loss"} | ({"accuracy"} if ev_mode else set()) | ({"n_seen"} if ev_cb else set())
+                if set(hist2.keys()) != keys2:
+                    v("history-keys", f"second fit() on the same Trainer (1 epoch, no validation loader): history keys {sorted(hist2.keys())}, expected {sorted(keys2)}")
+                for k in keys2 & set(hist2.keys()):
+                    if len(hist2[k]) != 1: v("history-length", f"second fit() on the same Trainer: history[{k!r}] has {len(hist2[k])} entries for 1 epoch")
+                nsteps = sum(1 for t in trace if t[0] == "step")
+                if nsteps != nb: v("step-count", f"second fit(): {nsteps} optimizer steps for 1 epoch x {nb} batches")
         nt = epochs >= 1
     finally:
         sg.Tensor.backward = Tb
@@ -244,6 +259,6 @@ def run(tier, seed):
                    "Dropout+Linear; every optimizer.zero_grad/step, model.forward, criterion and backward call is recorded with model.training "
                    "(all submodules) and the probed grad mode and matched against the automaton (forward, loss, zero_grad, backward, step)* "
                    "per batch, eval/no-grad/no-state-change validation, history keys and lengths, epoch loss = mean of batch losses, accuracy "
-                   "recomputed per label mode; test() in both outer grad modes; states = runs, transitions = monitored calls; non-trivial = epochs >= 1"}
+                   "recomputed per label mode; test() in both outer grad modes; a second fit() on the same Trainer (1 epoch, no validation loader) has its own history; states = runs, transitions = monitored calls; non-trivial = epochs >= 1"}
     return {"level": "model_checking", "violations": r["violations"], "coverage": cov,
             "assumptions": ["loaders with zero batches are left out (the statement's counts are vacuous there)", "batch size 4; lr 0.05; SGD"]}
